@@ -97,7 +97,8 @@ func (c *deployCommand) preRun(cmd *cobra.Command, args []string) error {
 	}
 
 	if c.args.ServiceOptions.TLSEnabled {
-		if len(c.args.ServiceOptions.Hosts) == 0 {
+		hasHost := slices.ContainsFunc(c.args.ServiceOptions.Hosts, func(host string) bool { return host != "" })
+		if !hasHost {
 			return fmt.Errorf("host must be set when using TLS")
 		}
 
